@@ -83,7 +83,7 @@ func main() {
 		partlib.MBMetas()
 		_, k, d := build(f.Replay.Ops)
 		if k != "" {
-			fmt.Printf("VIOLATION property=C02 replay=%s\n  %s: %s\n", os.Args[2], k, d)
+			fmt.Printf("VIOLATION property=%s replay=%s\n  %s: %s\n", ev.As("C02"), os.Args[2], k, d)
 			os.Exit(1)
 		}
 		fmt.Println("replay: property held")
